@@ -44,3 +44,18 @@ pub(crate) fn positionindex_len(r: &TextResource) -> usize {
 pub(crate) fn byte2char_len(r: &TextResource) -> usize {
     r.byte2charmap.len()
 }
+
+/// A text-less resource of `textlen` code points holding exactly one known selection [begin,end) with handle 0,
+/// with its two position-index entries written directly (bytepos = charpos, i.e. an ASCII text).
+pub(crate) fn with_one_selection(textlen: usize, begin: usize, end: usize) -> TextResource {
+    let mut res = bare(textlen);
+    let h = TextSelectionHandle::new(0);
+    res.textselections.push(Some(TextSelection { intid: Some(h), begin, end }));
+    if begin == end {
+        res.positionindex.0.insert(begin, PositionIndexItem { bytepos: begin, end2begin: smallvec!((begin, h)), begin2end: smallvec!((end, h)) });
+    } else {
+        res.positionindex.0.insert(begin, PositionIndexItem { bytepos: begin, end2begin: smallvec!(), begin2end: smallvec!((end, h)) });
+        res.positionindex.0.insert(end, PositionIndexItem { bytepos: end, end2begin: smallvec!((begin, h)), begin2end: smallvec!() });
+    }
+    res
+}
